@@ -5,7 +5,8 @@
 (* State = the accumulators of PackageGenerator and FragmentsGenerator; one action per phase.  *)
 EXTENDS Naturals, Sequences, FiniteSets, TLC, FiniteSetsExt, SequencesExt
 
-CONSTANTS NF,            \* number of named fragments F1..FNF (Fi may only spread Fj with j < i: all DAGs up to naming)
+CONSTANTS NF,            \* number of named fragments F1..FNF (Fi may only spread Fj with j < i: all DAGs up to naming;
+                         \* the NAMES -- which decide every sorted() in the generator -- are the separate variable nm)
           MaxOps,        \* operations in the queries file
           MaxFields,     \* root fields per operation
           Deviations     \* subset of {"exclude_all_unpacked", "no_dep_closure", "set_iteration"}: pre-fix behaviours
@@ -15,6 +16,7 @@ Sup == [J |-> {"J"}, I |-> {"I", "J"}, A |-> {"A", "I", "J"}]      \* type condi
 IsAbstract(T) == T \in {"J", "I"}
 StrictSub(S, T) == S # T /\ T \in Sup[S]
 Frags == 1..NF
+Perms(S) == {p \in [1..Cardinality(S) -> S] : \A i, j \in 1..Cardinality(S) : i # j => p[i] # p[j]}
 
 \* a fragment definition: its type condition, whether its selection set contains an inline fragment (on A),
 \* the fragments it spreads directly
@@ -25,12 +27,13 @@ Fields == [T : Types, fs : (SUBSET Frags) \ {{}}]
 OpsOf == UNION {[1..n -> Fields] : n \in 1..MaxFields}
 
 VARIABLES defs, ops,          \* the input (fixed by Init)
+          nm,                 \* nm[f] = alphabetical rank of the NAME of fragment f (a permutation of Frags, fixed by Init)
           phase,              \* "adding" | "generated"
           done,               \* operations processed by add_operation
           unpacked, mixins,   \* PackageGenerator._unpacked_fragments / _fragments_used_as_mixins
           opBases,            \* per processed operation: per field: per generated class type: fragment bases
           names, deps, order, module    \* FragmentsGenerator: generated names, dependency dict, class order, classes
-vars == <<defs, ops, phase, done, unpacked, mixins, opBases, names, deps, order, module>>
+vars == <<defs, ops, nm, phase, done, unpacked, mixins, opBases, names, deps, order, module>>
 
 \* ---- result_types: mixin-or-unpack decision for one spread evaluated for a class of type T ----------
 Unpacks(d, T) == d.inl \/ d.on # T                                    \* _unpack_fragment(fragment_def, root_type_def)
@@ -60,6 +63,7 @@ FieldRes(D, fld) == [ct \in ClassTypes(D, fld) |->
 \* ---- actions ------------------------------------------------------------------------------------------
 Init ==
   /\ defs \in FragDefs
+  /\ nm \in Perms(Frags)
   /\ ops \in UNION {[1..n -> OpsOf] : n \in 1..MaxOps}
   /\ phase = "adding" /\ done = 0 /\ unpacked = {} /\ mixins = {} /\ opBases = <<>>
   /\ names = {} /\ deps = <<>> /\ order = <<>> /\ module = {}
@@ -73,7 +77,7 @@ AddOperation ==
      /\ mixins' = mixins \cup UNION {UNION {res[i][ct].mix : ct \in DOMAIN res[i]} : i \in 1..Len(o)}
      /\ opBases' = Append(opBases, [i \in 1..Len(o) |-> [ct \in DOMAIN res[i] |-> res[i][ct].mix]])
   /\ done' = done + 1
-  /\ UNCHANGED <<defs, ops, phase, names, deps, order, module>>
+  /\ UNCHANGED <<defs, ops, nm, phase, names, deps, order, module>>
 
 \* fragment F generated as a class of its own: bases = the fragments it uses as mixins
 HasClass(D, f) == ~D[f].inl
@@ -82,21 +86,21 @@ OwnDeps(D, f) == IF ~HasClass(D, f) THEN {} ELSE UNION {Resolve(D, D[f].on, g).m
 RECURSIVE Close(_, _)
 Close(D, S) == LET more == UNION {OwnDeps(D, f) : f \in S} \ S IN IF more = {} THEN S ELSE Close(D, S \cup more)
 \* _get_sorted_fragments_names: DFS from the sorted roots; dependencies visited in sorted order
+ByName(a, b) == nm[a] < nm[b]           \* sorted() of fragment names
 RECURSIVE Visit(_, _, _, _)
 Visit(D, S, f, acc) ==     \* acc = order so far (a sequence without duplicates)
   IF f \in Range(acc) \/ f \notin S THEN acc
-  ELSE LET ds == SetToSortSeq(OwnDeps(D, f) \cap S, <)
+  ELSE LET ds == SetToSortSeq(OwnDeps(D, f) \cap S, ByName)
            RECURSIVE Go(_, _)
            Go(k, a) == IF k > Len(ds) THEN a ELSE Go(k + 1, Visit(D, S, ds[k], a)) IN
        Append(Go(1, acc), f)
 SortedOrder(D, S) ==
-  LET roots == SetToSortSeq(S, <)
+  LET roots == SetToSortSeq(S, ByName)
       RECURSIVE Go(_, _)
       Go(k, a) == IF k > Len(roots) THEN a ELSE Go(k + 1, Visit(D, S, roots[k], a)) IN
   Go(1, <<>>)
 \* any order a DFS with arbitrary iteration order of the dependency SET can produce (pre-fix): all linear extensions
 \* reachable by DFS = here simply: every permutation of S that respects deps is over-approximated by topological orders
-Perms(S) == {p \in [1..Cardinality(S) -> S] : \A i, j \in 1..Cardinality(S) : i # j => p[i] # p[j]}
 TopoOrders(D, S) == {p \in Perms(S) : \A i, j \in 1..Len(p) : p[j] \in OwnDeps(D, p[i]) => j < i}
 
 \* PackageGenerator._generate_fragments + FragmentsGenerator.generate
@@ -112,7 +116,7 @@ GenerateFragments ==
                     THEN {SelectSeq(p, LAMBDA f : HasClass(defs, f)) : p \in TopoOrders(defs, n)}
                     ELSE {SelectSeq(SortedOrder(defs, n), LAMBDA f : HasClass(defs, f))})
   /\ phase' = "generated"
-  /\ UNCHANGED <<defs, ops, done, unpacked, mixins, opBases>>
+  /\ UNCHANGED <<defs, ops, nm, done, unpacked, mixins, opBases>>
 
 Next == AddOperation \/ GenerateFragments
 Spec == Init /\ [][Next]_vars
